@@ -108,7 +108,7 @@ func (m *memoShared) leave(id int, seq uint64, now int64, err bool) {
 
 //go:norace
 func (m *memoShared) snapshot() []mexec {
-	return append([]mexec(nil), m.execs[:m.nexec]...)
+	return snapCopy(m.execs[:m.nexec])
 }
 
 type mcallRec struct {
@@ -135,13 +135,7 @@ type memoHist struct {
 }
 
 //go:norace
-func snapshotMCalls(recs [][]mcallRec) []mcallRec {
-	var out []mcallRec
-	for _, r := range recs {
-		out = append(out, r...)
-	}
-	return out
-}
+func snapshotMCalls(recs [][]mcallRec) []mcallRec { return snapFlatten(recs) }
 
 func mkey(i int) string { return fmt.Sprintf("key%d", i) }
 
